@@ -79,6 +79,13 @@ CHECKS = {
          "input and in setup vs proving mode; a public-input element contributes exactly one instance variable = EncodeSpec = "
          "ToConstraintField; Groth16 proofs made with the pinned proving keys verify under the pinned verifying keys and are "
          "rejected for other public inputs, with the public inputs recomputed by TLC.", "5 C15"),
+ "C16": ("Pairing.tla: G1, G2, GT as exponent groups modulo q; state = tables exponent -> observed bytes. Both engines run in one "
+         "binary on the scalar alphabet and seeded scalars: TLC requires byte-identical generators, compressed/uncompressed "
+         "serialisations, cross-deserialisation, scalar multiples and pairing outputs, and keeps the tables functional and "
+         "injective (bilinearity: e(aG1,bG2) depends only on ab and equals e(G1,G2)^(ab); non-degeneracy; additivity of the "
+         "module action), over several factorisations of the same product. The G1 generator is checked by TLC against the "
+         "curve y^2 = x^3 + 1 over Fp and to have order exactly q with the short-Weierstrass law. The Miller loop is not "
+         "transcribed: the reference arkworks engine is the oracle for the bytes, as the property states.", "5 C16"),
  "C17": ("Exhaustive over the finite list of public constants of both builds (105 + 41 constant reads): each is dumped by the "
          "harness as a canonical integer and TLC checks its defining equation recomputed from the modulus / curve alone "
          "(2*HALF+1=p, bit size, two-adicity by definition, TRACE*2^s=p-1 odd, generator = conventional one and g^((p-1)/l)!=1 "
